@@ -188,4 +188,93 @@ theorem leadingZeros_eq (x : W) :
   unfold leadingZeros
   rw [lzFrom_spec x 256 x.isLt]
 
+theorem mask_getLsbD (t i : Nat) (ht : t < 256) (hi : i < 256) :
+    (wMax >>> (256 - t)).getLsbD i = decide (i < t) := by
+  simp only [wMax, BitVec.getLsbD_ushiftRight, BitVec.getLsbD_allOnes]
+  by_cases h : i < t
+  · rw [decide_eq_true h, decide_eq_true (by omega)]
+  · rw [decide_eq_false h, decide_eq_false (by omega)]
+
+
+theorem getLsbD_ofN (n i : Nat) : (ofN n).getLsbD i = (decide (i < 256) && n.testBit i) := by
+  simp only [ofN, BitVec.getLsbD_ofNat, Nat.testBit_mod_two_pow]
+  cases decide (i < 256) <;> simp
+
+
+theorem signextend_bits_impl (a b : W) (ha : a.toNat < 32) (i : Nat) (hi : i < 256) :
+    (signextendImpl a b).getLsbD i =
+      if i < 8 * a.toNat + 7 then b.getLsbD i else b.getLsbD (8 * a.toNat + 7) := by
+  unfold signextendImpl
+  have hlt : a < 32#256 := by simp [BitVec.lt_def]; exact ha
+  have hmod : a.toNat % 2 ^ 32 = a.toNat := Nat.mod_eq_of_lt (by omega)
+  simp only [hlt, if_true, hmod]
+  have ht : 8 * a.toNat + 7 < 256 := by omega
+  generalize 8 * a.toNat + 7 = t at ht
+  cases hb : b.getLsbD t
+  · simp only [Bool.false_eq_true, if_false, BitVec.getLsbD_and, mask_getLsbD t i ht hi]
+    by_cases h : i < t
+    · simp [h]
+    · simp only [h, decide_false, Bool.and_false, if_false]
+  · simp only [if_true, BitVec.getLsbD_or, BitVec.getLsbD_not, mask_getLsbD t i ht hi, hi, decide_true, Bool.true_and]
+    by_cases h : i < t <;> simp [h]
+
+/-- spec side, bit by bit -/
+theorem signextend_bits_spec (a b : W) (ha : a.toNat < 31) (i : Nat) (hi : i < 256) :
+    (signextendSpec a b).getLsbD i =
+      if i < 8 * a.toNat + 7 then b.getLsbD i else b.getLsbD (8 * a.toNat + 7) := by
+  unfold signextendSpec
+  have h31 : ¬ 31 ≤ a.toNat := by omega
+  simp only [h31, if_false]
+  have hn : 8 * (a.toNat + 1) = (8 * a.toNat + 7) + 1 := by omega
+  rw [hn]
+  have ht : 8 * a.toNat + 7 < 255 := by omega
+  generalize 8 * a.toNat + 7 = t at ht
+  simp only [Nat.add_sub_cancel]
+  have hx : b.toNat % 2 ^ (t + 1) < 2 ^ (t + 1) := Nat.mod_lt _ (Nat.two_pow_pos _)
+  have hbt : b.getLsbD t = (b.toNat % 2 ^ (t + 1)).testBit t := by
+    simp [BitVec.getLsbD, Nat.testBit_mod_two_pow]
+  have hbi : ∀ j, (b.toNat % 2 ^ (t + 1)).testBit j = (decide (j < t + 1) && b.getLsbD j) := by
+    intro j; simp [BitVec.getLsbD, Nat.testBit_mod_two_pow]
+  by_cases hlt : b.toNat % 2 ^ (t + 1) < 2 ^ t
+  · simp only [hlt, if_true]
+    have hbf : b.getLsbD t = false := by rw [hbt]; exact Nat.testBit_lt_two_pow hlt
+    rw [getLsbD_ofN, hbi, hbf]
+    by_cases h1 : i < t
+    · have : i < t + 1 := by omega
+      simp [h1, hi, this]
+    · by_cases h2 : i = t
+      · subst h2; simp [hbf]
+      · have : ¬ i < t + 1 := by omega
+        simp [h1, this]
+  · simp only [hlt, if_false]
+    have hge : 2 ^ t ≤ b.toNat % 2 ^ (t + 1) := by omega
+    have hbtt : b.getLsbD t = true := by
+      rw [hbt]; exact Nat.testBit_of_two_pow_le_and_two_pow_add_one_gt hge hx
+    -- the encoded number is 2^(t+1) · (2^(255-t) − 1) + x
+    have hPQ : 2 ^ (t + 1) * 2 ^ (255 - t) = 2 ^ 256 := by
+      rw [← Nat.pow_add]; congr 1; omega
+    have hQ : 1 ≤ 2 ^ (255 - t) := Nat.one_le_two_pow
+    have hmul : 2 ^ (t + 1) * (2 ^ (255 - t) - 1) = 2 ^ 256 - 2 ^ (t + 1) := by
+      rw [Nat.mul_sub_one, hPQ]
+    have hP : 2 ^ (t + 1) ≤ 2 ^ 255 := Nat.pow_le_pow_right (by omega) (by omega)
+    have hcast : ((2 : Int) ^ (t + 1)) = ((2 ^ (t + 1) : Nat) : Int) := by
+      rw [Int.natCast_pow]; rfl
+    have henc : ofI ((b.toNat % 2 ^ (t + 1) : Nat) - 2 ^ (t + 1))
+        = ofN (2 ^ (t + 1) * (2 ^ (255 - t) - 1) + b.toNat % 2 ^ (t + 1)) := by
+      apply BitVec.eq_of_toNat_eq
+      rw [hmul, hcast]
+      generalize 2 ^ (t + 1) = P at hx hP hge
+      generalize b.toNat % P = x at hx hge
+      rw [toNat_ofI_of_neg (by omega) (by omega), toNat_ofN_of_lt (by omega)]
+      omega
+    rw [henc, getLsbD_ofN, Nat.testBit_two_pow_mul_add _ hx, hbi]
+    by_cases h1 : i < t
+    · have : i < t + 1 := by omega
+      simp [h1, hi, this]
+    · by_cases h2 : i = t
+      · subst h2; simp [hi]
+      · have h3 : ¬ i < t + 1 := by omega
+        have h4 : i - (t + 1) < 255 - t := by omega
+        simp [h1, h3, hi, hbtt, Nat.testBit_two_pow_sub_one, h4]
+
 end BA.Evm
